@@ -25,4 +25,20 @@ PROPS = {
         level_note="Trusted: Lean kernel; model=code beyond sampled call sequences; harness/driver; Go mutex semantics (concurrent calls are serialised by Keyring.l, not modelled).",
         explanation="Theorems: ring invariant over all call sequences, primary stability, refusal cases, rotation safety for every cluster size and interleaving; tie: differential run of the real Keyring against the model.",
     ),
+    "C10": dict(
+        lean_modules=["Swim.Props.C10"],
+        tests="^TestC10$",
+        rule=("random sequences of 1-40 QueueBroadcast (named incl. empty name / unique / plain with subjects; sizes 0-40 incl. equal) / "
+              "GetBroadcasts (overhead -1..3, limit -5..1400) / Prune (-1..5) / Reset / NumQueued with changing NumNodes and RetransmitMult 0-8, "
+              "tree snapshot after every call; plus retransmitLimit(mult,n) against mult*digits(n) around powers of ten; "
+              "non-trivial = a sequence with at least one retrieval that returned two or more messages; distinct = distinct canonical lines"),
+        trusted_base=COMMON_TB + ["google/btree modelled as a duplicate-free list with Less-minimum selection",
+                                  "math.Log10/Ceil in retransmitLimit (compared with mult*digits(n) on sampled n, not proved)"],
+        assumptions=["ids and transmit counters do not wrap (int64)", "queue mutex serialises calls"],
+        level_text=("Proof: Lean theorems for every operation sequence (ids unique, one broadcast per name, conservation = no silent loss and "
+                    "exactly-once completion, get_fits, limit_exact, Less-least selection) about a model of queue.go, tied to the code by a "
+                    "differential run with a tree snapshot after every call."),
+        level_note="Trusted: Lean kernel; model=code beyond sampled sequences; btree semantics; float log10 in retransmitLimit; harness/driver.",
+        explanation="conservation/invariants by induction over operation lists; get loop by a fuel-indexed induction principle",
+    ),
 }
